@@ -164,7 +164,7 @@ func (g *c08Gen) meta(i int) *rlwe.MetaData {
 		m.Scale = rlwe.NewScaleModT(3, 65537)
 		m.IsNTT, m.IsMontgomery = true, true
 		m.IsBatched, m.IsBitReversed = true, true
-		m.LogDimensions = ring.Dimensions{Rows: 1, Cols: 3}
+		m.LogDimensions = ring.Dimensions{Rows: -1, Cols: -128}
 	case 2:
 		m.Scale = rlwe.NewScale(1.5)
 		m.LogDimensions = ring.Dimensions{Rows: 0, Cols: 0}
@@ -172,11 +172,11 @@ func (g *c08Gen) meta(i int) *rlwe.MetaData {
 		m.Scale = rlwe.NewScale(float64(g.rng.U64()>>11) * 1.25)
 		m.IsMontgomery = true
 		m.IsBitReversed = true
-		m.LogDimensions = ring.Dimensions{Rows: 2, Cols: 11}
+		m.LogDimensions = ring.Dimensions{Rows: 127, Cols: -2}
 	case 4:
 		m.Scale = rlwe.NewScaleModT(g.rng.Below(65537), 65537)
 		m.IsNTT = true
-		m.LogDimensions = ring.Dimensions{Rows: 1, Cols: 2}
+		m.LogDimensions = ring.Dimensions{Rows: -128, Cols: 127}
 	case 5: // zero value of the struct (Scale.Value = 0, precision 0)
 	}
 	return m
@@ -304,6 +304,7 @@ func (g *c08Gen) specs() []c08Spec {
 			return e
 		})
 	}
+	g.schemePlaintextSpecs(add)
 	// keys
 	add("sk", "rlwe.SecretKey", "pA", func() c08Obj { return rlwe.NewKeyGenerator(pA).GenSecretKeyNew() })
 	add("sk", "rlwe.SecretKey", "pB", func() c08Obj { return rlwe.NewKeyGenerator(pB).GenSecretKeyNew() })
@@ -706,6 +707,8 @@ func genC08(c *Ctx) {
 	}
 	g.probeBackToBack(specs, byType)
 	g.probeBufioBoundary()
+	g.probeMetaFields()
+	g.probeByteFieldRange()
 	g.probeScale()
 	g.probeJSONTypes()
 	c.Stats["child-spawns"] = g.child.spawns
@@ -1140,8 +1143,8 @@ func (g *c08Gen) probeCorrupt(s c08Spec, id string, tree *c08Gv, enc []byte, few
 }
 
 const (
-	kWindow      = "C08/buffer.Buffer.Write/window-shorter-than-capacity-overrun-or-silent-truncation"
-	kPartialElem = "C08/buffer.ReadUintNSlice/partial-element-discarded"
+	c08KWindow      = "C08/buffer.Buffer.Write/window-shorter-than-capacity-overrun-or-silent-truncation"
+	c08KPartialElem = "C08/buffer.ReadUintNSlice/partial-element-discarded"
 )
 
 // probeWindow: WriteTo into a buffer.Buffer built over a WINDOW of a larger allocation
@@ -1198,7 +1201,7 @@ func (g *c08Gen) probeWindow(s c08Spec, id string, val c08Obj, enc []byte) {
 			break
 		}
 	}
-	c.Probe("window_write", id+" WriteTo(buffer.Buffer over backing[:k], len<cap)", kWindow, detail)
+	c.Probe("window_write", id+" WriteTo(buffer.Buffer over backing[:k], len<cap)", c08KWindow, detail)
 }
 
 // probeReaderSizes: chunking independence includes the size of the caller's bufio.Reader.
@@ -1221,8 +1224,11 @@ func (g *c08Gen) probeReaderSizes(s c08Spec, id string, tree *c08Gv, enc []byte)
 			case cls == "err" && sz < 64 && c08HasEvk[s.ty]:
 				// the 32-byte seed is fetched with Peek(32): needs a buffer of at least 32 bytes
 				k = "C08/buffer.Read/block-larger-than-bufio-buffer"
+			case cls == "ok":
+				// decoded, but to another value: not the reader's arithmetic (see the other probes)
+				k = c08Key(s.goType, "ReadFrom(bufio.ReaderSize)", "value-differs")
 			default:
-				k = kPartialElem
+				k = c08KPartialElem
 			}
 		}
 		c.Probe("reader_size", id+" bufio.NewReaderSize "+I(sz), k, detail)
